@@ -34,6 +34,8 @@ def reasm(prop,extra_quick=(),extra_thorough=()):
     jobs.append(job("alphabet-k6-mif2",".","VH_Reassembler",[prop+"/"],{"k":6,"maxInFlight":2,"alphabet":2},T,bounds="k=6 over base + {0,1} x 3 record kinds; maxInFlight=2"))
     return {"jobs":jobs,"assumptions":REASM_ASSUME,"outside":REASM_OUT}
 C["C01"]=reasm("C01")
+for sc in (4,5):
+    C["C01"]["jobs"].append(job(f"script-{sc}-reentrant",".","VH_Reassembler",["C01/"],{"k":0,"maxInFlight":4,"script":sc},Q,bounds="fixed history of 7-9 pushes in which two complete events leave in one batch and the Stream, from inside the first delivery, "+("pushes the record that releases a second batch of two" if sc==4 else "calls Maintain")+" (single goroutine, re-entrant use); symbolic sequence base"))
 C["C01"]["jobs"].append(job("push-text-k3",".","VH_ReassemblerPush",["C01/"],{"k":3,"maxInFlight":2},Q,expect=["C01/push-accepted"],bounds="k=3 records through Push(typ, raw): record type symbolic (all 65536), well-formed text, sequence in {5,6}, then Close; maxInFlight=2"))
 C["C01"]["jobs"].append(job("push-text-k4-mif1",".","VH_ReassemblerPush",["C01/"],{"k":4,"maxInFlight":1},T,bounds="k=4 through Push, maxInFlight=1"))
 C["C01"]["outside"]=[x for x in REASM_OUT if not x.startswith("Push(")]+["Push(typ, raw) with text that does not parse (C04/C05)"]
